@@ -136,6 +136,9 @@ def conjT (a : Tensor (Cpx R)) : Tensor (Cpx R) := mapT conj a
 def modSqT (a : Tensor (Cpx R)) : Tensor R := mapT modSq a
 def cdivT [Div R] [DecidableEq R] (a b : Tensor (Cpx R)) : Tensor (Cpx R) := zipBcast cdiv a b
 
+/-- `safe_divide(input, other)` on (broadcasting) real tensors -/
+def safeDivT [Div R] [DecidableEq R] (a b : Tensor R) : Tensor R := zipBcast safeDiv a b
+
 /-- `complex_dot_product(a, b, dim) = complex_multiplication(conjugate(a), b).sum(dim)` -/
 def cdotT (a b : Tensor (Cpx R)) (dims : List Int) : Tensor (Cpx R) := sumAxes (cmulT (conjT a) b) dims
 
@@ -159,6 +162,11 @@ data whose *last* axis has length 2 is taken to be complex -/
 def rssSqReal (t : Tensor R) (dim complexDim : Int) : Tensor R :=
   if t.shape.getLast? = some 2 then sumAxis (sumAxis (mapT (fun x => x * x) t) complexDim) dim
   else sumAxis (mapT (fun x => x * x) t) dim
+
+/-- `modulus_if_complex(data, complex_axis)` squared-or-unchanged: `(true, (data**2).sum(axis))` when that axis has
+length 2 (`is_complex_data`), `(false, data)` otherwise -/
+def modSqIfComplex (t : Tensor R) (complexAxis : Int) : Bool × Tensor R :=
+  if t.shape.getD (normAxis t.shape.length complexAxis) 0 = 2 then (true, modSqAxis t complexAxis) else (false, t)
 
 /-- real matrix product on row lists (what `torch.mm` computes) -/
 def rmm (A B : List (List R)) : List (List R) :=
